@@ -43,6 +43,8 @@ def snapshot_isolation(chk: Check, rule: str = 'PROV-snapshot-isolation') -> Non
     # 1. snapshot isolation -- save side
     ms = prog.view(mem.vmethods['save_checkpoint'])
     stores = [n for n in ast.walk(ms.node) if isinstance(n, ast.Assign) and isinstance(n.targets[0], ast.Subscript)]
+    # (making room for a process seen for the first time -- ``table[pid] = {}`` -- stores nothing of the process)
+    stores = [n for n in stores if not ((isinstance(n.value, ast.Dict) and not n.value.keys) or (isinstance(n.value, ast.Call) and norm(n.value.func) == 'dict' and not n.value.args and not n.value.keywords))]
     ok = False
     from ..rules import Resolver
     stored_v = Resolver(ms).expand(stores[0].value) if len(stores) == 1 else None
@@ -258,6 +260,21 @@ def run(chk: Check) -> None:
     ms = prog.view(mem.vmethods['save_checkpoint'])
     stores = [n for n in ast.walk(ms.node) if isinstance(n, ast.Assign) and isinstance(n.targets[0], ast.Subscript)]
     ok = len(stores) == 1 and norm(stores[0].targets[0]) == f'self._checkpoints.setdefault({ms.params[1]}.pid, {{}})[{ms.params[2]}]'
+    if not ok:
+        # the same entry with the room made explicitly: ``if pid not in table: table[pid] = {}`` ; ``table[pid][tag] = ...`` (pid possibly a local for process.pid)
+        from ..rules import Resolver as _R14
+        r14 = _R14(ms)
+        real = [n for n in stores if not ((isinstance(n.value, ast.Dict) and not n.value.keys) or (isinstance(n.value, ast.Call) and norm(n.value.func) == 'dict' and not n.value.args))]
+        room = [n for n in stores if n not in real]
+        def pid_of(e) -> bool:
+            return r14.text(e) == f'{ms.params[1]}.pid'
+        if len(real) == 1 and isinstance(real[0].targets[0].value, (ast.Subscript, ast.Call)) and norm(real[0].targets[0].slice) == ms.params[2]:
+            inner = real[0].targets[0].value
+            if isinstance(inner, ast.Subscript):
+                ok = norm(inner.value) == 'self._checkpoints' and pid_of(inner.slice) and all(
+                    norm(n.targets[0].value) == 'self._checkpoints' and pid_of(n.targets[0].slice) for n in room)
+            else:
+                ok = norm(inner.func) == 'self._checkpoints.setdefault' and len(inner.args) == 2 and pid_of(inner.args[0]) and not room
     chk.ob('SIB-key-function', ms, ok, 'in memory: save writes the entry [process.pid][tag]', kind='keyed-by-both')
 
     # 3. idempotent delete
@@ -275,6 +292,22 @@ def run(chk: Check) -> None:
                    and any(norm(a) in ('KeyError', 'OSError', 'FileNotFoundError') for a in i.context_expr.args)]
             acts = [s for s in w.body if any(isinstance(x, ast.Delete) or (isinstance(x, ast.Call) and last_name(x) in ('remove', 'unlink', 'pop')) for x in ast.walk(s))]
             ok = ok or (bool(sup) and bool(acts))
+        if not ok and cls is mem:
+            # look before you leap: something is removed, and every keyed access that could raise KeyError (``x[k]``, ``del x[k]``, ``x.pop(k)`` without default)
+            # happens where ``k in x`` is known to hold
+            ffd = chk.ctx.facts.analyse(df)
+            removes = [x for x in ast.walk(df.node) if isinstance(x, ast.Delete) or (isinstance(x, ast.Call) and last_name(x) == 'pop')]
+            body_nodes = [x for st_ in df.node.body for x in ast.walk(st_) if not isinstance(st_, (ast.FunctionDef, ast.AsyncFunctionDef))]   # (annotations in the signature are subscripts too)
+            risky = [x for x in body_nodes if isinstance(x, ast.Subscript)] + [x for x in body_nodes if isinstance(x, ast.Call) and last_name(x) == 'pop' and len(x.args) < 2 and isinstance(x.func, ast.Attribute)]
+            def guarded(x) -> bool:
+                cont, key_ = (x.value, x.slice) if isinstance(x, ast.Subscript) else (x.func.value, x.args[0] if x.args else None)
+                if key_ is None:
+                    return False
+                wants = {('T', f'{ffd.canon.key(key_)} in {ffd.canon.key(cont)}'), ('T', f'{norm(key_)} in {norm(cont)}'), ('T', f'{ffd.canon.key(key_)} in {norm(cont)}')}
+                nodes_ = [n_ for n_ in ffd.cfg.nodes if n_.expr() is not None and any(y is x for y in ast.walk(n_.expr()))] + [
+                    n_ for n_ in ffd.cfg.nodes if n_.kind == 'stmt' and isinstance(n_.ast, ast.Delete) and any(y is x for y in ast.walk(n_.ast))]
+                return bool(nodes_) and all(wants & set(ffd.at(n_)) for n_ in nodes_)
+            ok = bool(removes) and bool(risky) and all(guarded(x) for x in risky)
         chk.ob('PAIR-idempotent-delete', df, ok, f'{cls.name}.delete_checkpoint tolerates a checkpoint that does not exist', kind='missing-tolerated')
     # listing: the file-name PATTERN handed to fnmatch / glob is made of constants.  A key (pid, tag) spliced into a pattern is interpreted -- '[', '*', '?' in a
     # process id select other files and miss its own -- unless it went through glob.escape / re.escape first
